@@ -134,6 +134,14 @@ def run_files(ctx, n_mut, tag):
     impl = ctx.run_impl(lines, timeout=1500, env=env)
     known = known_keys(ctx)
     seen_new = {}
+    # a timeout or an abort may be an artefact of machine load: re-run such cases alone, with a
+    # generous limit, and believe only what reproduces
+    retry = [l for l in lines if classify_answer(impl.get(l.split("\t", 1)[0]))[0] in ("timeout", "abort")]
+    if retry:
+        ctx.count("retried_alone", len(retry))
+        for l in retry[:40]:
+            r = vlib.run_exe(vlib.VH, [l], timeout=200, shards=1, env={"VH_PANIC_INFO": "1", "VH_CASE_TIMEOUT_MS": "60000"})
+            impl.update(r)
     for lid, (f, p, kind, path, rd) in meta.items():
         out, key = classify_answer(impl.get(lid))
         ctx.count("outcome:" + out)
